@@ -2,6 +2,9 @@ use bytes::BytesMut;
 use std::io;
 use std::net::SocketAddr;
 use tokio::io::{AsyncReadExt, AsyncWriteExt};
+#[cfg(resolved_verif)]
+use crate::verif::net::{TcpStream, UdpSocket};
+#[cfg(not(resolved_verif))]
 use tokio::net::{TcpStream, UdpSocket};
 
 /// Read a DNS message from a TCP stream.
